@@ -22,6 +22,12 @@
 //	Q pre extra vals i    | nil or index in base                   PtrAt
 //	S i l1;l2;…           | elements [ALIAS]                       Stripe ("-" = no lists)
 //
+// Zero-size elements (known finding F13; corpus only -- these calls are linear in len unless they
+// panic at once):
+//
+//	E R len k             | ok                                     Rotate(make([]struct{}, len), k)
+//	E C len n             | len:cap,len:cap,…                      Chunks(make([]struct{}, len), n)
+//
 // Supplementary operations, outside property C17, generated only with -prop C17x:
 //
 //	Z pre extra vals 0    | base-after                             Zero
@@ -197,6 +203,24 @@ func exec(in string) string {
 		})
 	}
 	switch f[0] {
+	case "E":
+		ln, _ := strconv.Atoi(f[2])
+		arg, _ := strconv.Atoi(f[3])
+		return guard(func() string {
+			big := make([]struct{}, ln)
+			if f[1] == "R" {
+				slice.Rotate(big, arg)
+				return "ok"
+			}
+			var out []string
+			for _, c := range slice.Chunks(big, arg) {
+				out = append(out, strconv.Itoa(len(c))+":"+strconv.Itoa(cap(c)))
+			}
+			if len(out) == 0 {
+				return "."
+			}
+			return strings.Join(out, ",")
+		})
 	case "L":
 		vals := tr.UnInts(f[1])
 		mask, _ := strconv.Atoi(f[2])
